@@ -300,6 +300,7 @@ Observe(o, e) ==
                                     !.viol = @ \cup Flag("C07_CertValidated", e.ok => o.cfg.hs = "ok")]
     [] e.ev = "setdl"  -> [o EXCEPT !.armed = e.armed]
     [] e.ev = "wfail"  -> [o EXCEPT !.srvGone = TRUE]      \* the transport broke under a client write
+    [] e.ev = "setpolicy" -> [o EXCEPT !.cfg.policy = e.policy]   \* Client.SetTLSPolicy between two calls
     [] e.ev = "tlshello" -> o                              \* a cleartext server saw a TLS ClientHello: nothing in clear
     [] e.ev = "xclose" -> [o EXCEPT !.srvGone = TRUE]      \* another goroutine closed the client
     [] e.ev = "stall"  -> [o EXCEPT !.stalled = TRUE, !.srvGone = TRUE, !.pend = NoCmd]
